@@ -92,11 +92,22 @@ def slice_fields(repo: Repo, f: FuncInfo, root: str, cls: Optional[str], depth: 
                     changed = True
     if want_names:
         return rel
+    # plain copies of the root (parameter bindings of helpers analysed in place) denote the same object
+    roots = {root}
+    grew = True
+    while grew:
+        grew = False
+        for n in ast.walk(fn):
+            if isinstance(n, (ast.Assign, ast.AnnAssign)) and isinstance(n.value, ast.Name) and n.value.id in roots:
+                for t in (n.targets if isinstance(n, ast.Assign) else [n.target]):
+                    if isinstance(t, ast.Name) and t.id not in roots:
+                        roots.add(t.id)
+                        grew = True
     fields: Set[str] = set()
     for e in relexprs:
         blocked = _blocked_by_callee(repo, f, e, root, depth) if depth < 3 else set()
         for n in ast.walk(e):
-            if isinstance(n, ast.Attribute) and isinstance(n.value, ast.Name) and n.value.id == root and id(n) not in blocked:
+            if isinstance(n, ast.Attribute) and isinstance(n.value, ast.Name) and n.value.id in roots and id(n) not in blocked:
                 fields.add(n.attr)
     out: Set[str] = set()
     for fld in fields:
